@@ -621,6 +621,30 @@ def extras(only=None):
         except Exception as ex:  # noqa: BLE001
             rec['oracle'] = 'callable objects with a false truth value as components: raised %s: %s' % (type(ex).__name__, ex)
         out.append(rec)
+    # SCALE: hundreds of components (a fixed-size buffer, an index type, a threshold that switches to a vectorised path)
+    for k, n in enumerate([200, 1025]):
+        name = 'many-components-%d' % k
+        if only and only != name:
+            continue
+        counts = [0] * n
+
+        def comp(i):
+            def f(x):
+                counts[i] += 1
+                return (i % 7) - 3 + 0.25 * (i % 3)
+            return f
+        ws = [((i * 37) % 11) - 5 + 0.5 * (i % 2) for i in range(n)]
+        want = 0
+        for i in range(n):
+            want += ws[i] * ((i % 7) - 3 + 0.25 * (i % 3))
+        rec = {'name': name, 'okey': 'many-components', 'input': {'n_components': n}, 'oracle': None}
+        try:
+            got = WeightedFunction(functions=[comp(i) for i in range(n)], weights=ws).pointer(x)
+            if got != want or counts != [1] * n:
+                rec['oracle'] = '%d components: value %r, expected %r; components not called exactly once: %d' % (n, got, want, sum(1 for c_ in counts if c_ != 1))
+        except Exception as ex:  # noqa: BLE001
+            rec['oracle'] = '%d components raised %s: %s' % (n, type(ex).__name__, ex)
+        out.append(rec)
     # integer / bool weights with fractional component values: the weights' type must not leak into the component values
     for k, (ws, vals) in enumerate([([2, -1, 3], [0.5, 1.25, -0.75]), ([True, True, False], [0.3, 0.6, 9.9]), ([1], [0.9]), ([0, 7], [3.7, 0.1])]):
         name = 'int-weights-%d' % k
